@@ -280,6 +280,15 @@ def m1_cmdseq(ctx: Any, prog: Program) -> None:
             for s in ast.walk(n):
                 if isinstance(s, ast.Assign) and isinstance(s.targets[0], ast.Name):
                     wctl.setdefault(s.targets[0].id, set()).update(tf)
+    # locals unpacked from a helper call on command fields (`special, exe = _encode_exe(cmd.exe)`) derive from those fields
+    for n in ast.walk(wf):
+        if isinstance(n, ast.Assign) and isinstance(n.value, ast.Call):
+            tf = {x.attr for a_ in n.value.args for x in ast.walk(a_) if isinstance(x, ast.Attribute) and dotted(x.value) == 'cmd'}
+            if tf:
+                for t_ in n.targets:
+                    for e_ in ([t_] if isinstance(t_, ast.Name) else (t_.elts if isinstance(t_, (ast.Tuple, ast.List)) else [])):
+                        if isinstance(e_, ast.Name):
+                            wctl.setdefault(e_.id, set()).update(tf)
     for i, (p, a) in enumerate(zip(params, args)):
         rf = reach.get(p, set())
         wf_, _ = writer_fields(a, wlocals)
